@@ -60,6 +60,7 @@ type pool struct {
 	pending  int
 	next     int
 	busy     int
+	inflight map[*HarnessRun]int
 	tier     int
 	prop     string
 	deadline time.Time
@@ -102,16 +103,29 @@ func (p *pool) pop() (task, bool) {
 		p.pending--
 		p.next = (p.next + i + 1) % len(p.order)
 		p.busy++
+		if p.inflight == nil {
+			p.inflight = map[*HarnessRun]int{}
+		}
+		p.inflight[h]++
 		return t, true
 	}
 	panic("pool: pending count out of sync")
 }
 
-func (p *pool) done() {
+func (p *pool) done(h *HarnessRun) {
 	p.mu.Lock()
 	p.busy--
+	p.inflight[h]--
 	p.mu.Unlock()
 	p.cond.Broadcast()
+}
+
+// finished: no queued and no running path of this harness is left (and none can appear: new paths are pushed
+// only by running paths of the same harness)
+func (p *pool) finished(h *HarnessRun) bool {
+	p.mu.Lock()
+	defer p.mu.Unlock()
+	return len(p.stacks[h]) == 0 && p.inflight[h] == 0
 }
 
 type workerState struct {
@@ -161,7 +175,7 @@ func (p *pool) worker(wid int, wg *sync.WaitGroup) {
 		}
 		h.mu.Unlock()
 		if skip {
-			p.done()
+			p.done(h)
 			continue
 		}
 		st := states[h]
@@ -173,7 +187,7 @@ func (p *pool) worker(wid int, wg *sync.WaitGroup) {
 				h.mu.Lock()
 				h.engineErr = "cannot start solver: " + err.Error()
 				h.mu.Unlock()
-				p.done()
+				p.done(h)
 				continue
 			}
 			s.TimeoutS = h.Meta.TimeoutS
@@ -220,7 +234,18 @@ func (p *pool) worker(wid int, wg *sync.WaitGroup) {
 		h.mu.Lock()
 		h.wall = time.Since(h.t0)
 		h.mu.Unlock()
-		p.done()
+		p.done(h)
+		// release the solver processes and machines of harnesses that are finished
+		for fh, st := range states {
+			if p.finished(fh) {
+				fh.mu.Lock()
+				fh.queries += st.s.Queries
+				fh.solverTime += st.s.Time
+				fh.mu.Unlock()
+				st.s.Close()
+				delete(states, fh)
+			}
+		}
 	}
 }
 
